@@ -171,6 +171,7 @@ LT = [
     ("LogNormalLifetime", dict(mean=8.0, std=3.0)),
     ("WeibullLifetime", dict(weibull_shape=0.9, weibull_scale=2.0)),
     ("WeibullLifetime", dict(weibull_shape=2.2, weibull_scale=6.0)),
+    ("LogNormalLifetime", dict(mean=0.9, std=0.3)),  # small but non-vanishing first-interval survival (4.6e-4) on 5-year steps
 ]
 
 
